@@ -22,5 +22,6 @@ INVARIANTS
   Rule2Exact
   Rule3Exact
   ReduciblePairs
+  TopRanksByValue
   Export
 CHECK_DEADLOCK FALSE
